@@ -17,13 +17,13 @@ import os
 import z3
 from symx.harness import Harness, run_harness, load_known
 from symx import core
-from symx.core import sym_and, sym_or, implies
+from symx.core import sym_and, sym_or, sym_not, implies
 from ref import rv32, irsem, irsem_u
 from props import _tv, _c05, _c05progs
 
 PROPERTY = "C05"
 LEVEL = "translation_validation"
-JOB_TIMEOUT = {"quick": 300, "thorough": 1200}
+JOB_TIMEOUT = {"quick": 600, "thorough": 1500}
 TASKS_PER_CHILD = 64
 BOUNDS = {
     "quick": {"programs": "corpus/cprogs.py (37 C functions) + families of props/_c05progs.py: x op K / K op x with boundary "
@@ -69,7 +69,7 @@ class CodegenHarness(Harness):
     W = 80
     choose_limit = 8                 # symbolic addresses with <= 8 feasible values fork; wider ones stay symbolic (arrays)
     timeout_ms = 30000
-    prove_timeout_ms = 20000         # then cvc5 (bit-vectors as integers): narrow division identities need it
+    prove_timeout_ms = 240000        # 16-bit vs 32-bit divider equivalences take z3 ~10 s idle, cvc5 does not help
     shim_modules = ()
 
     def __init__(self, prog, level, rvc, argext="junk"):
@@ -201,8 +201,10 @@ class CodegenHarness(Harness):
                 x[rv] = o.val(i["ext"][counters["funs"]])
                 counters["funs"] += 1
 
+        wild = []
+        allowed = {_c05.SP0 + off + j for off, size, _ in stack_args for j in range(size)}
         try:
-            x, mem, steps = _c05.emulate(b, o, x, mem, on_ext, MAX_STEPS)
+            x, mem, steps = _c05.emulate(b, o, x, mem, on_ext, MAX_STEPS, wild, allowed)
         except _c05.MachineFault as e:
             return dict(status="fault", error=str(e), premise=premise)
         ret = None
@@ -214,8 +216,9 @@ class CodegenHarness(Harness):
         saved = [(out(x[rn]), out(x0[rn])) for rn in b.callee_save]
         frame = [(out(mem.load_byte(o.val(_c05.SP0 + j))), out(frame0[j]) if frame0[j] is not None else i["junk"])
                  for j in range(_c05.CALLER_FRAME)]
+        wildc = (_tv.term_out(z3.Or(*wild)) if sym else True) if wild else False
         return dict(status="ok", ref=ref, premise=premise, mach=dict(ret=ret, mem=mmem, trace=trace),
-                    saved=saved, frame=frame, steps=steps)
+                    saved=saved, frame=frame, steps=steps, wild=wildc)
 
     # -- property --------------------------------------------------------------------------------
     def post(self, i, outc):
@@ -247,7 +250,7 @@ class CodegenHarness(Harness):
                 cs += [p == q for p, q in zip(a1, a2)]
             posts["call-trace"] = implies(prem, sym_and(*cs)) if cs else True
         posts["callee-saved-restored"] = implies(prem, sym_and(*[a == c for a, c in v["saved"]]))
-        posts["caller-frame-intact"] = implies(prem, sym_and(*[a == c for a, c in v["frame"]]))
+        posts["caller-frame-intact"] = implies(prem, sym_and(sym_not(v["wild"]), *[a == c for a, c in v["frame"]]))
         return posts
 
 
